@@ -11,6 +11,31 @@ REWIND = 'SchedulerContext::rewind_validation_to'
 MV_FIELD = 'Scheduler.mv_memory'
 
 
+def membership_closure_kind(ctx, cname):
+    """'contains' when the closure returns prev.write_set.contains(item) on every path, 'not-contains'
+    when it returns the negation, else None"""
+    cf = ctx.fn(ctx.facts.by[cname])
+    kinds = set()
+    for q in feasible(cf.paths()):
+        r = [e for e in q.events if e.kind == 'ret'][0].d['value']
+        neg = False
+        while r[0] == 'un' and r[1] == 'Not':
+            r, neg = r[2], not neg
+        if r[0] == 'call' and callee_matches(r[1], '::contains') and len(r[2]) == 2 and mentions_field(r[2][0], 'TransactionResult.write_set') and r[2][1] == ('arg', 2):
+            kinds.add('not-contains' if neg else 'contains')
+        elif r[0] == 'const' and r[1] in ('true', 'false'):
+            # if contains(..) { false } else { true } spelled with branches
+            at = [bool_fact(a) for a in q.events if a.kind == 'atom']
+            at = [b for b in at if b and b[0][0] == 'call' and callee_matches(b[0][1], '::contains') and mentions_field(b[0][2][0], 'TransactionResult.write_set') and b[0][2][1] == ('arg', 2)]
+            if len(at) != 1:
+                return None
+            kinds.add('contains' if (r[1] == 'true') == at[0][1] else 'not-contains')
+        else:
+            return None
+    return kinds.pop() if len(kinds) == 1 else None
+
+
+
 def sched(ctx, m):
     return ctx.method('scheduler::Scheduler<DB>', m)
 
@@ -334,6 +359,23 @@ def X_execute_task_tail(ctx):
                   and mentions_field(e.d['term'][1], 'IncarnationAccesses.write_set') and not mentions_field(e.d['term'][1], 'TransactionResult.write_set')]
         empty_new = bool(it_new) and it_new[0].d['outcome'] == 'None'
         subset_shown = empty_new or (any(e.d['outcome'] == 'true' for e in cont) and not any(e.d['outcome'] == 'false' for e in cont))
+        # the same test written with an iterator adaptor: !new.iter().any(|l| !prev.contains(l)) / new.iter().all(|l| prev.contains(l))
+        for a in p.events:
+            bf = bool_fact(a)
+            if not bf or bf[0][0] != 'call' or len(bf[0][2]) != 2:
+                continue
+            nm = norm_callee(bf[0][1])
+            which = 'any' if nm.endswith('Iterator::any') else 'all' if nm.endswith('Iterator::all') else None
+            recv, clo = bf[0][2]
+            if which is None or clo[0] != 'closure' or not mentions_field(recv, 'IncarnationAccesses.write_set') or mentions_field(recv, 'TransactionResult.write_set'):
+                continue
+            if not any(mentions_field(c, 'tx_results') for c in clo[2]):
+                continue
+            kind = membership_closure_kind(ctx, clo[1])
+            if (which == 'any' and kind == 'not-contains' and bf[1] is False) or (which == 'all' and kind == 'contains' and bf[1] is True):
+                subset_shown = True
+                if has_prev:
+                    good_witness += 1
         if not has_prev or not subset_shown:
             bad.append(p)
         if has_prev and any(e.d['outcome'] == 'true' for e in cont):
